@@ -41,11 +41,12 @@ class T:
         return names.get((self.d, self.s), f"(degree {self.d}, shift {self.s})")
 
 
-ANY = "any"          # polymorphic: zero, nan, empty
+ANY = "any"          # polymorphic: nan, empty
+ZERO = "zero"        # the literal 0: any degree, but it does not shift with the waveform
 BAD = "nonaffine"    # not an affine-equivariant quantity (product of levels, ratio of levels ...)
 UNK = "unknown"
 NUM = T(0, 0)
-LEVEL = T(1, 1)
+LEVEL_T = T(1, 1)
 DIFF = T(1, 0)
 
 
@@ -63,6 +64,13 @@ class Typer:
 
     def join(self, ts, what):
         real = [t for t in ts if isinstance(t, T)]
+        if any(t == ZERO for t in ts):
+            sh = [t for t in real if t.s != 0]
+            if sh:
+                self.err(what, f"combines the literal 0 with a {sh[0]!r} quantity: the result does not follow an offset of the waveform")
+                return ANY
+            if not real:
+                return ZERO
         if any(t == BAD for t in ts):
             return BAD
         if any(t == UNK for t in ts) and not real:
@@ -91,6 +99,8 @@ class Typer:
             return self.ty(v.fields.get("signal"))
         if not isinstance(v, Form):
             return UNK
+        if v.is_zero():
+            return ZERO
         k = v.key()
         if k in self.memo:
             return self.memo[k]
@@ -117,7 +127,7 @@ class Typer:
                     bad = True
                 elif t == UNK:
                     unk = True
-                elif t == ANY:
+                elif t == ANY or t == ZERO:
                     n_any += 1
                     continue
                 else:
@@ -211,6 +221,8 @@ class Typer:
         name, args, kw = a[1], a[2], dict(a[3])
         if name in self.CMP:
             l, r = self.ty(args[0]), self.ty(args[1])
+            if (l == ZERO and isinstance(r, T) and r.s != 0) or (r == ZERO and isinstance(l, T) and l.s != 0):
+                self.err(f"comparison {short(Form.atom(a))}", "a level (which shifts with the waveform) is compared with the literal 0: the outcome depends on the offset of the input")
             if isinstance(l, T) and isinstance(r, T) and l != r:
                 lit = isinstance(args[1], Form) and args[1].const_value() is not None or isinstance(args[0], Form) and args[0].const_value() is not None
                 self.err(f"comparison {short(Form.atom(a))}", ("a quantity that scales with the waveform is compared with a non-zero literal: the outcome depends on the unit of the input"
@@ -285,14 +297,14 @@ def short(v, n=110):
     return s if len(s) <= n else s[:n] + "..."
 
 
-FIELD_TYPES = {"mu0": LEVEL, "mu1": LEVEL, "threshold": LEVEL, "y_left": LEVEL, "y_right": LEVEL, "s0": DIFF, "s1": DIFF,
+FIELD_TYPES = {"mu0": LEVEL_T, "mu1": LEVEL_T, "threshold": LEVEL_T, "y_left": LEVEL_T, "y_right": LEVEL_T, "s0": DIFF, "s1": DIFF,
                "t_left": NUM, "t_right": NUM, "t_opt": NUM, "t_dist": NUM, "i": NUM}
 
 
 def run(ctx):
     pkg = ctx.pkg
     fi = pkg.func("devices.GET_EYE")
-    samples = {"input.signal": LEVEL, "input.noise": DIFF}
+    samples = {"input.signal": LEVEL_T, "input.noise": DIFF}
     for noise in ("notnone", "none"):
         for resamp in (True, False):
             case = f"noise {noise}, sps_resamp {'given' if resamp else 'omitted'}"
@@ -326,7 +338,7 @@ def run(ctx):
                     ctx.violation("C17.1", fi, rets[0].node, f"GET_EYE field `{name}`: {what}"[:300], why)
                 if new:
                     continue
-                if t == want or t == ANY:
+                if t == want or t == ANY or (t == ZERO and want.s == 0):
                     ctx.holds("C17.1", fi, rets[0].node, f"GET_EYE [{case}] field `{name}`", f"{want!r}")
                 elif t == UNK:
                     ctx.unknown("C17.1", fi, rets[0].node, f"GET_EYE [{case}] field `{name}`", "unit type not determined (unsummarised routine in its definition)")
@@ -346,14 +358,14 @@ def run(ctx):
     it = Interp(pkg)
     outs = it.run(fs_)
     rets = [o for o in outs if o.kind == "return"]
-    tp = Typer({"data": LEVEL, "percent": NUM})
+    tp = Typer({"data": LEVEL_T, "percent": NUM})
     if len(rets) >= 1:
         for o in rets:
             t = tp.ty(o.value)
         for what, why in tp.errors:
             ctx.violation("C17.1", fs_, rets[0].node, "shortest_int: " + what.split("(")[0].strip(), f"{what[:200]}: {why}")
         if not tp.errors:
-            ctx.check("C17.1", t == LEVEL or t == ANY, fs_, rets[0].node, "shortest_int result", "two data values (level type)", f"result type {t!r} is not that of the data")
+            ctx.check("C17.1", t == LEVEL_T or t == ANY, fs_, rets[0].node, "shortest_int result", "two data values (level type)", f"result type {t!r} is not that of the data")
     else:
         ctx.unknown("C17.1", fs_, fs_.node, "shortest_int", "no return")
     ctx.require_min("C17.1", 40)
